@@ -365,8 +365,8 @@ func simulate(tm *treeModel, key func(int) []int) []int {
 // controller
 
 const (
-	stallTimeout = 15 * time.Second
-	hardTimeout  = 40 * time.Second
+	stallTimeout = 30 * time.Second
+	hardTimeout  = 60 * time.Second
 )
 
 type execOutcome struct {
@@ -400,6 +400,17 @@ func (e *execEnv) waitUntil(cond func() bool, d time.Duration) bool {
 			return ok
 		}
 	}
+}
+
+// pendingSummary: what the controller saw when it gave up (for the inconclusive reason).
+func (e *execEnv) pendingSummary() string {
+	e.mu.Lock()
+	defer e.mu.Unlock()
+	var parts []string
+	for _, r := range e.reqs {
+		parts = append(parts, fmt.Sprintf("%v(leaf %d arrive=%d opened=%v release=%d merged=%d)", r.ids, r.leaf, r.arriveAt, r.opened, r.relAt, r.mergedAt))
+	}
+	return fmt.Sprintf("requests=%v finished=%v hookLoads=%d hookFinished=%d", parts, e.finished, e.hookLoads, e.hookDone)
 }
 
 func (e *execEnv) openAll() {
@@ -451,7 +462,7 @@ func predictedSkip(spec *planSpec) map[int]bool {
 func (e *execEnv) control(sch schedule, out *execOutcome) {
 	if sch.mode == "free" {
 		if !e.waitUntil(func() bool { return e.finished }, hardTimeout) {
-			out.stall = "stall: ungated execution did not finish"
+			out.stall = "stall-finish: ungated execution did not finish"
 		}
 		return
 	}
@@ -502,7 +513,7 @@ func (e *execEnv) control(sch schedule, out *execOutcome) {
 			return true
 		}, stallTimeout)
 		if !ok {
-			out.stall = fmt.Sprintf("stall: enabled requests %v did not all arrive", expected)
+			out.stall = fmt.Sprintf("stall-arrival: enabled requests (leaves %v) did not all arrive; %s", expected, e.pendingSummary())
 			return
 		}
 		e.mu.Lock()
@@ -531,7 +542,7 @@ func (e *execEnv) control(sch schedule, out *execOutcome) {
 				return false
 			}, stallTimeout)
 			if !ok {
-				out.stall = "stall: nothing pending and the resolve call does not return"
+				out.stall = "stall-finish: nothing pending and the resolve call does not return; " + e.pendingSummary()
 				return
 			}
 			e.mu.Lock()
@@ -569,7 +580,7 @@ func (e *execEnv) control(sch schedule, out *execOutcome) {
 			return true
 		}, stallTimeout)
 		if !ok {
-			out.stall = "stall: released request was never reported merged"
+			out.stall = "stall-merge: released request was never reported merged; " + e.pendingSummary()
 			return
 		}
 		for _, r := range batch {
